@@ -75,6 +75,86 @@ type vfGen struct {
 	// enums: next-hops carry encapsulate-/decapsulate-header enum numbers (pre-state: defined numbers;
 	// symbolic steps: any int32)
 	enums bool
+	// payload: entries carry the extended payload (vfPayloadX) in one of the shapes of nhx / topx;
+	// payloadValidOnly: pre-state entries only take the schema-valid shapes
+	payload bool
+	// lean: symbolic steps on top-level entries always carry a body and a group reference and nothing else
+	// optional (the optional fields are explored by the other harnesses); pre-state slots are always live
+	lean bool
+}
+
+// vfBadIPs / vfBadMACs: strings the schema patterns reject.
+var vfBadIPs = []string{"", "1.2.3", "300.1.1.1", "01.2.3.4", "1.2.3.4/32", "fe80::1%eth0", "::ffff:1.2.3.4", "2001:db8::g"}
+var vfBadMACs = []string{"", "00:11:22:33:44", "0:1:2:3:4:5", "00-11-22-33-44-55", "gg:11:22:33:44:55", "00:11:22:33:44:55:66"}
+
+// nhx: one of 13 extended payload shapes of a next-hop; validOnly restricts to shapes the schema accepts
+// (labels and the subinterface number stay symbolic: they are constrained by an assumption instead).
+func (g *vfGen) nhx(name string, validOnly bool) *vfPayloadX {
+	x := &vfPayloadX{}
+	sh := vfInt(name+".px", 0, 12)
+	switch sh {
+	case 0:
+		return nil
+	case 1:
+		x.hasIP, x.ip = true, vfStrK(name+".ip", "ip")
+	case 2:
+		x.hasIP, x.ip = true, vfBadIPs[vfInt(name+".badip", 0, len(vfBadIPs)-1)]
+	case 3:
+		x.hasMAC, x.mac = true, vfStrK(name+".mac", "mac")
+	case 4:
+		x.hasMAC, x.mac = true, vfBadMACs[vfInt(name+".badmac", 0, len(vfBadMACs)-1)]
+	case 5:
+		x.hasIf, x.ifname = true, vfStrK(name+".if", "ni")
+	case 6:
+		x.hasIf, x.ifname = true, vfStrK(name+".if", "ni")
+		x.hasSub, x.sub = true, vfU64(name+".sub")
+	case 7:
+		x.hasSub, x.sub = true, vfU64(name+".sub")
+	case 8:
+		x.hasSrc, x.src = true, vfStrK(name+".src", "ip")
+		x.hasDst, x.dst = true, vfStrK(name+".dst", "ip")
+	case 9:
+		x.hasSrc, x.src = true, vfBadIPs[vfInt(name+".badip", 0, len(vfBadIPs)-1)]
+		x.hasDst, x.dst = true, vfStrK(name+".dst", "ip")
+	case 10:
+		x.stack = []uint64{vfU64(name + ".push")}
+	case 11:
+		x.stack = []uint64{vfU64(name + ".push"), vfU64(name + ".push")}
+	case 12:
+		x.hasIP, x.ip = true, vfStrK(name+".ip", "ip")
+		x.hasMAC, x.mac = true, vfStrK(name+".mac", "mac")
+		x.hasIf, x.ifname = true, vfStrK(name+".if", "ni")
+		x.hasSub, x.sub = true, vfU64(name+".sub")
+		x.hasSrc, x.src = true, vfStrK(name+".src", "ip")
+		x.hasDst, x.dst = true, vfStrK(name+".dst", "ip")
+		x.stack = []uint64{vfU64(name + ".push"), vfU64(name + ".push"), vfU64(name + ".push")}
+	}
+	if validOnly {
+		vfAssume(!x.invalid())
+	}
+	return x
+}
+
+// topx: extended payload of a top-level entry - a defined decapsulate-header number (IPv4/IPv6) or a
+// popped label stack of 0-2 symbolic labels (label entries).
+func (g *vfGen) topx(name string, kind int, validOnly bool) *vfPayloadX {
+	if !vfBool(name + ".hasX") {
+		return nil
+	}
+	x := &vfPayloadX{}
+	if kind == vfKMPLS {
+		n := vfInt(name+".npop", 1, 2)
+		for i := 0; i < n; i++ {
+			x.stack = append(x.stack, vfU64(name+".pop"))
+		}
+		if validOnly {
+			vfAssume(!x.invalid())
+		}
+		return x
+	}
+	x.topDecap = vfI32(name + ".decap")
+	vfAssume(vfAnd(x.topDecap >= 1, x.topDecap <= 8))
+	return x
 }
 
 func (g *vfGen) id() uint64 { g.nextID++; return g.nextID }
@@ -108,12 +188,19 @@ func (g *vfGen) nh(name string) *vfOpD {
 		d.encap, d.decap = vfI32(name+".encap"), vfI32(name+".decap")
 		vfAssume(vfAnd(vfEncapDefined(d.encap), vfEncapDefined(d.decap)))
 	}
+	if g.payload {
+		d.x = g.nhx(name, true)
+	}
 	return d
 }
 
 func (g *vfGen) nhg(name string, maxMembers int) *vfOpD {
 	d := &vfOpD{id: g.id(), typ: vfADD, kind: vfKNHG, ni: g.lowNI(name), idx: vfU64(name + ".id"), hasBody: true}
-	n := vfInt(name+".nm", 0, maxMembers)
+	lo := 0
+	if g.lean {
+		lo = maxMembers
+	}
+	n := vfInt(name+".nm", lo, maxMembers)
 	for i := 0; i < n; i++ {
 		m := vfMember{idx: vfU64(name + ".m.idx")}
 		d.members = append(d.members, m)
@@ -127,7 +214,7 @@ func (g *vfGen) nhg(name string, maxMembers int) *vfOpD {
 func (g *vfGen) topFields(d *vfOpD, name string) {
 	d.hasBody = true
 	d.hasNHG, d.nhg = true, vfU64(name+".nhg")
-	if vfBool(name + ".hasNHGNI") {
+	if !g.lean && vfBool(name+".hasNHGNI") {
 		d.hasNHGNI, d.nhgNI = true, vfStrK(name+".nhgNI", "ni")
 	}
 	if !g.rich {
@@ -148,6 +235,9 @@ func (g *vfGen) top(name string, kind int) *vfOpD {
 		d.label = vfU64(name + ".label")
 	}
 	g.topFields(d, name)
+	if g.payload {
+		d.x = g.topx(name, kind, true)
+	}
 	return d
 }
 
@@ -164,8 +254,13 @@ func (g *vfGen) anyOf(name string, maxMembers, typLo, typHi int, kinds []int) *v
 	} else {
 		kind = kinds[vfInt(name+".kind", 0, len(kinds)-1)]
 	}
-	d := &vfOpD{id: g.id(), typ: vfInt(name+".typ", typLo, typHi), kind: kind, ni: vfStrK(name+".ni", "ni")}
-	d.hasBody = vfBool(name + ".hasBody")
+	d := &vfOpD{id: g.id(), typ: vfInt(name+".typ", typLo, typHi), kind: kind}
+	if g.lean {
+		d.ni = vfKnownNI(name)
+	} else {
+		d.ni = vfStrK(name+".ni", "ni")
+	}
+	d.hasBody = g.lean || vfBool(name+".hasBody")
 	switch d.kind {
 	case vfKV4:
 		d.pfx = vfStrK(name+".pfx", "prefix4")
@@ -181,14 +276,17 @@ func (g *vfGen) anyOf(name string, maxMembers, typLo, typHi int, kinds []int) *v
 	}
 	switch d.kind {
 	case vfKV4, vfKV6, vfKMPLS:
-		if vfBool(name + ".hasNHG") {
+		if g.lean || vfBool(name+".hasNHG") {
 			d.hasNHG, d.nhg = true, vfU64(name+".nhg")
 		}
-		if vfBool(name + ".hasNHGNI") {
+		if !g.lean && vfBool(name+".hasNHGNI") {
 			d.hasNHGNI, d.nhgNI = true, vfStrK(name+".nhgNI", "ni")
 		}
-		if vfBool(name + ".hasMD") {
+		if !g.lean && vfBool(name+".hasMD") {
 			d.hasMD, d.md = true, vfU8(name+".md")
+		}
+		if g.payload {
+			d.x = g.topx(name, d.kind, false)
 		}
 	case vfKNHG:
 		n := vfInt(name+".nm", 0, maxMembers)
@@ -207,6 +305,9 @@ func (g *vfGen) anyOf(name string, maxMembers, typLo, typHi int, kinds []int) *v
 		}
 		if g.enums {
 			d.encap, d.decap = vfI32(name+".encap"), vfI32(name+".decap")
+		}
+		if g.payload {
+			d.x = g.nhx(name, false)
 		}
 	}
 	return d
@@ -228,12 +329,12 @@ type vfPreCfg struct {
 // operations.  Every slot is optional (symbolic liveness); contents are symbolic.
 func vfCanonical(r *RIB, ref *vfRef, g *vfGen, c vfPreCfg) {
 	for i := 0; i < c.nNH; i++ {
-		if vfBool(g.pfx+"pre.nh.live") {
+		if g.lean || vfBool(g.pfx+"pre.nh.live") {
 			vfAssume(vfSubmit(r, ref, g.nh(g.pfx+"pre.nh")) == vfStAcked)
 		}
 	}
 	for i := 0; i < c.nNHG; i++ {
-		if vfBool(g.pfx+"pre.nhg.live") {
+		if g.lean || vfBool(g.pfx+"pre.nhg.live") {
 			vfAssume(vfSubmit(r, ref, g.nhg(g.pfx+"pre.nhg", c.members)) == vfStAcked)
 		}
 	}
@@ -287,6 +388,8 @@ type vfRunCfg struct {
 	kinds    []int
 	mapOrder bool // nondeterministic map iteration order (held-operation walk)
 	enums    bool // next-hop enum fields (see vfGen.enums)
+	payload  bool // extended payload (see vfGen.payload)
+	lean     bool // see vfGen.lean
 }
 
 // vfRIBRun: canonical pre-state + symbolic steps, each answer checked against
@@ -297,7 +400,7 @@ func vfRIBRun(c vfRunCfg) {
 		fwd = vfBool("forward-references")
 	}
 	r, ref := vfNewPair(fwd)
-	g := &vfGen{rich: c.rich, fixLow: c.fixLow, splitLow: c.splitLow, enums: c.enums}
+	g := &vfGen{rich: c.rich, fixLow: c.fixLow, splitLow: c.splitLow, enums: c.enums, payload: c.payload, lean: c.lean}
 	pre := c.pre
 	if !fwd {
 		pre.nHeld = 0
